@@ -13,7 +13,7 @@ import (
 )
 
 var keys = []string{"a", "ab", "b", "\x80\xff", "\x00"}
-var prefixes = []string{"", "a", "ab", "b", "c", "\x80"}
+var prefixes = []string{"", "a", "ab", "b", "c", "\x80", "\x80\xff"}
 
 type params struct {
 	depth, nkeys int
